@@ -31,6 +31,7 @@ structure Abs where
   refund : Nat
   logs : Nat → List Log
   logSize : Nat
+  pre : Nat → Option Bytes
 
 def viewToks : TokStore → TokV
   | .inl m => .inl (fun t => (m t).getD 0)
@@ -44,7 +45,7 @@ def abs (c : Ctx) : Abs :=
   { heap := fun r t => (c.heap r t).getD 0
     acct := fun a => (peek c.st a).map viewObj
     trieV := fun a => (c.st.trie a).map (fun x => viewObj (loadObj x))
-    refund := c.st.refund, logs := c.st.logs, logSize := c.st.logSize }
+    refund := c.st.refund, logs := c.st.logs, logSize := c.st.logSize, pre := c.st.preimages }
 
 /-- the property's observables are a function of the abstraction -/
 def obsOV (heap : Ref → Tok → Int) (v : OV) : AccObs :=
@@ -56,7 +57,7 @@ def obsOV (heap : Ref → Tok → Int) (v : OV) : AccObs :=
     empty := v.nonce == 0 && v.balance == 0 && v.code.isEmpty }
 
 def obsA (x : Abs) : Obs :=
-  { acct := fun a => (x.acct a).map (obsOV x.heap), refund := x.refund, logs := x.logs, logSize := x.logSize }
+  { acct := fun a => (x.acct a).map (obsOV x.heap), refund := x.refund, logs := x.logs, logSize := x.logSize, preimages := x.pre }
 
 theorem obs_eq_obsA (c : Ctx) : obs c = obsA (abs c) := by
   simp only [obs, obsA, abs]
@@ -109,6 +110,7 @@ def undoA (e : Entry) (x : Abs) : Abs :=
   | .refund prev => { x with refund := prev }
   | .addLog tx => { x with logs := upd x.logs tx (x.logs tx).dropLast, logSize := x.logSize - 1 }
   | .touch _ => x
+  | .addPreimage p => { x with pre := upd x.pre p none }
   | .tokenBalance a t prev => modTokA x a t (prev.getD 0)
 
 /-! ### basic facts about `peek` -/
@@ -272,6 +274,7 @@ theorem abs_undo (e : Entry) (c : Ctx) : abs (undo e c) = undoA e (abs c) := by
   | refund prev => rfl
   | addLog tx => rfl
   | touch a => rfl
+  | addPreimage p => rfl
   | tokenBalance a t prev => exact abs_modTok c a t prev
 
 def undoList : List Entry → Ctx → Ctx
